@@ -136,8 +136,15 @@ func judge(sc *Scenario, x *vrt.Execution) []verdict {
 				_ = t
 				_ = n
 			}
+			// a command may run once per stage that refers to its task (stages may share one task object)
+			allowed := map[string]int{}
+			for _, tc := range sc.Tasks {
+				for _, t := range append(append(append([]string{}, tc.Before...), tc.Cmds...), tc.After...) {
+					allowed[t]++
+				}
+			}
 			for tok, n := range count {
-				if n > 1 {
+				if n > 1 && n > allowed[tok] {
 					add("C03", "C03:twice", fmt.Sprintf("command %q executed %d times", tok, n))
 				}
 			}
